@@ -16,7 +16,8 @@ REQUIRED = ['C19.ensure1d_accepts_iff', 'C19.ensure1d_rejects_iff', 'C19.ensure1
             'C19.ensureVector_nd_current',
             'C19.spectra_shape_checks_are_support_routines', 'C19.ensure_equal_dims_empty_list',
             'C19.ensureEqualDims_pair', 'C19.ensureEqualDims_is_prefix_test', 'C19.ensureEqualDims_not_symmetric',
-            'C19.ensureEqualDims_swap_witness']
+            'C19.ensureEqualDims_swap_witness',
+            'C19.ensureEqualDims_rejects_every_mismatch']
 TRUSTED = [
     'PARTIAL (instance-only): that no routine modifies its input arrays / option dictionaries, that accepted layouts give '
     'bitwise identical values, that read-only arrays are accepted and that a repeated deterministic call is identical are facts '
